@@ -28,6 +28,7 @@ EXPLANATION = (
     "handler supplied, wrapped once into the response's own data-set parameter. Not decided: that the data "
     "set reaches the requestor unchanged (C25/C18 hold the structural part)."
     " Fourth session: (encode-total) dsutils.encode returns None for whatever the pydicom writer raises; (reply-fresh) C17's fresh-message rule."
+    " Fifth round: (handler-exception-status) via C20's attempt in either form; (status-override) an N-service replaces the status a handler returned only for the documented causes (dataset encoding failure, invalid status)."
 )
 
 CAUSE_PATTERNS = [
@@ -293,6 +294,7 @@ def run(repo: Repo, rep: Report, tier: str) -> None:
     hd = repo.mod("_handlers")
     documented_0110 = sum(1 for ln in hd.path.read_text().splitlines() if "0x0110" in ln and "Processing" in ln)
     rep.floor("handler docstrings naming 0x0110", documented_0110, 6)
+    n_eval = check_n_reply_evaluated(repo, rep)
     for nm in nfun:
         fn = repo.func("service_class", f"ServiceClass.{nm}")
         fq = f"service_class.ServiceClass.{nm}"
@@ -301,6 +303,8 @@ def run(repo: Repo, rep: Report, tier: str) -> None:
         for c, _d in encode_sites(repo, fn):
             st = enclosing(c, (ast.stmt,))
             v = norm(st.targets[0]) if isinstance(st, ast.Assign) else None
+            if v is None and n_eval.get(nm):
+                continue  # encoded inside a helper: the 0x0110 answer is decided by the evaluation (n-reply)
             ifs = [i for i in walk_no_nested(fn) if isinstance(i, ast.If) and v and norm(i.test) in (f"{v} is not None", f"{v} is None")]
             ok = False
             for i in ifs:
@@ -332,7 +336,9 @@ def run(repo: Repo, rep: Report, tier: str) -> None:
             texts = [c_ for c_, pol in conds if pol]
             encode_cause = any(" is None" in c_ or c_.startswith("not ") for c_ in texts) and any("bytestream" in c_ or "encoded" in c_ or "data" in c_.lower() for c_ in texts)
             uid_cause = any("AffectedSOPInstanceUID" in c_ for c_ in texts) or any("AffectedSOPInstanceUID" in c_ for c_, pol in conds)
-            if uid_cause:
+            if uid_cause and n_eval.get(nm) == "uid":
+                pass  # decided by the evaluation (n-reply, N-CREATE without an Affected SOP Instance UID)
+            elif uid_cause:
                 okc = any(c_.replace(" ", "") in ("status[0]==STATUS_SUCCESS", "STATUS_SUCCESS==status[0]") for c_ in texts)
                 rep.check(okc, "n-service", fq, ov, f"the handler's status is replaced by {hex(const_int(ov.value))} for a missing Affected SOP Instance UID under {texts}: that requirement holds for a successful N-CREATE only - a Warning (0xB300, 0xB605 ...) or any other non-Failure status the handler returned is answered with 0x0110 and without its attribute list instead of as documented", mod=sc, node=ov)
             elif not encode_cause:
@@ -343,6 +349,10 @@ def run(repo: Repo, rep: Report, tier: str) -> None:
     for nm, attr in DATA_ATTR.items():
         fn = repo.func("service_class", f"ServiceClass.{nm}")
         fq = f"service_class.ServiceClass.{nm}"
+        if nm.startswith("_n_") and n_eval.get(nm) and not any(isinstance(c_, ast.Call) and isinstance(c_.func, ast.Name) and c_.func.id == "encode" for c_ in walk_no_nested(fn)):
+            # the reply is encoded and attached in a helper: what reaches the response is decided by the evaluation above
+            rep.ok("data-flow", f"{fq} :: reply built in a helper", "decided by evaluating the SCP with its helpers (n-reply)")
+            continue
         # the variable unpacked from the handler's result
         unpack = [s for s in walk_no_nested(fn) if isinstance(s, ast.Assign) and isinstance(s.targets[0], ast.Tuple) and len(s.targets[0].elts) == 2 and norm(strip_cast(s.value)) in ("user_response", "result")]
         rep.need(len(unpack) == 1, f"{fq}: handler result unpacking not found")
@@ -517,3 +527,102 @@ def check_handler_block_minimal(repo: Repo, rep: Report, dimse_events: set[str])
                 if not bad:
                     rep.ok("status-preserved", f"{fq} :: handler block at line {owner.lineno}", "only the trigger can raise")
     rep.floor("handler blocks inspected", n, 8)
+
+
+def check_n_reply_evaluated(repo: Repo, rep: Report, rule: str = "n-reply") -> dict:
+    """What a DIMSE-N SCP answers for a handler that returned (status, data set), decided by evaluating the SCP
+    (sa/nscp_eval.py; helper methods are followed) for one status of every category of the richest status table
+    and an unknown one, a data set that is non-empty / empty / None, and an encoder that works / fails:
+    exactly one response, on the request's context, carrying the request's message ID and the handler's status
+    (0x0110 only when the reply could not be encoded); the handler's data set - that object, encoded with the three
+    flags of the context's transfer syntax - is attached as the service's reply attribute exactly when the status
+    is Success or Warning and the data set is not empty; no other response carries a data set."""
+    from ..minipy import Raised, Unsupported
+    from ..nscp_eval import N_SCPS, NScpEval
+
+    rep.rule(rule, "DIMSE-N SCPs evaluated per status category: one response with the handler's status; the handler's data set is attached (encoded with the context's transfer syntax) iff the status is Success or Warning")
+    done = {}
+    try:
+        ev = NScpEval(repo)
+    except AnalysisError as exc:
+        rep.defer(f"DIMSE-N SCP evaluation not possible: {exc}")
+        return done
+    sc = repo.mod("service_class")
+    n = 0
+    for fname, (prim, event, attr) in N_SCPS.items():
+        fq = f"service_class.ServiceClass.{fname}"
+        _, fn = repo.lookup_method(repo.cls("service_class", "ServiceClass"), fname, "method")
+        bad = None
+        try:
+            for cat, code in ev.codes.items():
+                for n_elems in (2, 0, None):
+                    for enc_ok in (True, False):
+                        r = ev.run(fname, code, n_elems, enc_ok)
+                        n += 1
+                        inst = f"handler returns ({hex(code)} [{cat}], {'a data set' if n_elems else 'an empty data set' if n_elems == 0 else 'None'}){'' if enc_ok else ', encoding fails'}"
+                        if r["raised"]:
+                            bad = (inst, f"raises {r['raised']} out of the SCP: no response is sent")
+                            break
+                        if len(r["sent"]) != 1:
+                            bad = (inst, f"{len(r['sent'])} responses are sent: a DIMSE-N request gets exactly one")
+                            break
+                        rsp, cx, status, data = r["sent"][0]
+                        if cx != 3 or rsp.attrs.get("MessageIDBeingRespondedTo") != 7:
+                            bad = (inst, f"the response goes out on context {cx!r} with MessageIDBeingRespondedTo {rsp.attrs.get('MessageIDBeingRespondedTo')!r}: not the request's (3, 7)")
+                            break
+                        gate = cat in ("Success", "Warning") and bool(n_elems)
+                        want_status = 0x0110 if gate and not enc_ok else code
+                        if status != want_status:
+                            bad = (inst, f"the response carries status {hex(status) if isinstance(status, int) else status!r}, documented: {hex(want_status)}")
+                            break
+                        want_data = {attr: ("BytesIO", b"<encoded>")} if gate and enc_ok else {}
+                        if data != want_data:
+                            got = sorted(data) or "no data set"
+                            bad = (inst, f"the response carries {got}; documented: {'the encoded reply as ' + attr if want_data else 'no data set'} - only a Success or Warning response of a DIMSE-N service has a reply data set (the requestor's SCU reads one only then), and the handler's data set is the one that is sent")
+                            break
+                        if gate:
+                            okenc = len(r["encoded"]) == 1 and r["encoded"][0][0] is r["ds"] and tuple(r["encoded"][0][1]) == ("ts.implicit", "ts.little", "ts.deflated")
+                            if not okenc:
+                                bad = (inst, f"the reply is encoded from {[('the handler data set' if e_[0] is r['ds'] else repr(e_[0])[:30], e_[1]) for e_ in r['encoded']]}: it must be the handler's data set, with (is_implicit_VR, is_little_endian, is_deflated) of the context's transfer syntax")
+                                break
+                    if bad:
+                        break
+                if bad:
+                    break
+        except Unsupported as exc:
+            rep.defer(f"{fq}: not evaluable with stand-ins ({exc})")
+            continue
+        done[fname] = True
+        if not bad and fname == "_n_create_scp":
+            # PS3.7 10.1.5.1.4: the response to a *successful* N-CREATE needs an Affected SOP Instance UID - from the
+            # request, else from the handler's attribute list (moved out of it), else 0x0110; any other status stands
+            try:
+                for cat, code in ev.codes.items():
+                    for ds_uid in ("1.2.840.ds", None):
+                        r = ev.run(fname, code, 2, True, req_uid=None, ds_uid=ds_uid)
+                        n += 1
+                        inst = f"request without Affected SOP Instance UID; handler returns ({hex(code)} [{cat}], a data set {'with' if ds_uid else 'without'} one)"
+                        if r["raised"] or len(r["sent"]) != 1:
+                            bad = (inst, f"{'raises ' + r['raised'] if r['raised'] else str(len(r['sent'])) + ' responses'}: the request gets exactly one response")
+                            break
+                        rsp, cx, status, data = r["sent"][0]
+                        lost = cat == "Success" and ds_uid is None
+                        want_status = 0x0110 if lost else code
+                        want_data = cat in ("Success", "Warning") and not lost
+                        if status != want_status or bool(data) != want_data:
+                            bad = (inst, f"answered with status {hex(status) if isinstance(status, int) else status!r} {'and' if data else 'without'} a data set; documented: {hex(want_status)} {'with' if want_data else 'without'} the attribute list - the missing-UID failure applies to a successful creation only, a Warning / Failure / other status the handler returned stands")
+                            break
+                        if cat == "Success" and ds_uid is not None and (rsp.attrs.get("AffectedSOPInstanceUID") != ds_uid or "AffectedSOPInstanceUID" in r["ds"].attrs):
+                            bad = (inst, "the Affected SOP Instance UID of the handler's attribute list must be moved into the response")
+                            break
+                    if bad:
+                        break
+                done[fname] = "uid"
+            except Unsupported as exc:
+                rep.note(f"{fq}: the missing-UID scenarios are not evaluable with stand-ins ({exc}); the structural rule applies") if hasattr(rep, "note") else None
+        if bad:
+            rep.fail(rule, fq, bad[0], bad[1], mod=sc, node=fn)
+        else:
+            rep.ok(rule, f"{fq} :: {len(ev.codes)} status categories x 3 data sets x encoder ok / fails", f"table {ev.table_name}")
+    rep.floor("DIMSE-N SCP evaluations", n, 100)
+    return done
